@@ -26,7 +26,18 @@ fn show_assets<A: Copy>(m: &conway::Multiasset<A>, q: impl Fn(A) -> String) -> S
     s
 }
 
+// unusual-but-legal alternative the wrappers must not let a zero through: RFC 8949 bignum (tag 2 / tag 3 + big-endian bytes,
+// empty, minimal or zero-padded). pallas' PositiveCoin / NonZeroInt reject a tag head as a type mismatch.
+fn bignum_bytes(rng: &mut Rng, tag: u8, n: u64) -> Vec<u8> {
+    let mut b: Vec<u8> = n.to_be_bytes().iter().cloned().skip_while(|x| *x == 0).collect();
+    match rng.below(3) { 0 => {}, 1 => { b.insert(0, 0); } _ => { while b.len() < 8 { b.insert(0, 0); } } }
+    let mut v = vec![0xc0 | tag, 0x40 | b.len() as u8]; v.extend(b); v
+}
 fn uint_bytes(rng: &mut Rng, n: u64) -> Vec<u8> {
+    if rng.chance(1, 10) { return bignum_bytes(rng, 2, n); }
+    uint_plain(rng, n)
+}
+fn uint_plain(rng: &mut Rng, n: u64) -> Vec<u8> {
     // any width that can carry n
     let min_w = if n < 24 { 0 } else if n < 256 { 1 } else if n < 65536 { 2 } else if n < (1 << 32) { 4 } else { 8 };
     let c: Vec<u8> = [0u8, 1, 2, 4, 8].iter().cloned().filter(|x| *x >= min_w).collect();
@@ -35,7 +46,7 @@ fn uint_bytes(rng: &mut Rng, n: u64) -> Vec<u8> {
         4 => { let mut v = vec![0x1a]; v.extend((n as u32).to_be_bytes()); v } _ => { let mut v = vec![0x1b]; v.extend(n.to_be_bytes()); v } }
 }
 fn int_bytes(rng: &mut Rng, i: i128) -> Vec<u8> {
-    if i >= 0 { uint_bytes(rng, i as u64) } else { let mut v = uint_bytes(rng, (-1 - i) as u64); v[0] |= 0x20; v }
+    if i >= 0 { uint_bytes(rng, i as u64) } else if rng.chance(1, 10) { bignum_bytes(rng, 3, (-1 - i) as u64) } else { let mut v = uint_plain(rng, (-1 - i) as u64); v[0] |= 0x20; v }
 }
 const QTY: [u64; 12] = [0, 0, 0, 1, 1, 2, 23, 24, 255, 65536, u64::MAX, (1 << 63) - 1];
 fn qty_u(rng: &mut Rng) -> u64 { if rng.chance(3, 4) { *rng.pick(&QTY) } else { rng.u64_edgy() } }
